@@ -47,7 +47,7 @@ def c10(pid, tier, replay):
     res = core.Result(pid, "model_checking", tier)
     seed = core.seed()
     rng = random.Random(seed * 13 + 10)
-    n = 3000 if tier == "thorough" else 350
+    n = 25000 if tier == "thorough" else 350
     insts = []
     if replay:
         with open(replay) as f:
@@ -86,7 +86,7 @@ def c10(pid, tier, replay):
         res.notes["binding_selftest"] = st
         if st and not st["rejected"]:
             raise core.ToolError("binding self-test failed")
-    run_parts(res, "TraceYSrc", lines, dict(PROP="C10"), 1 if replay else (12 if tier == "thorough" else 6), byid, seed)
+    run_parts(res, "TraceYSrc", lines, dict(PROP="C10"), 1 if replay else (14 if tier == "thorough" else 6), byid, seed)
     for i in insts[:2]:
         res.sample(dict(id=i["id"], kind=i["kind"], y=i["y"]))
     res.assumptions += ["documents are generated valid; invalid / near-valid sources are C12's business",
@@ -99,7 +99,7 @@ def c11(pid, tier, replay):
     res = core.Result(pid, "model_checking", tier)
     seed = core.seed()
     rng = random.Random(seed * 17 + 11)
-    n = 2500 if tier == "thorough" else 300
+    n = 20000 if tier == "thorough" else 300
     insts = []
     if replay:
         with open(replay) as f:
@@ -145,7 +145,7 @@ def c11(pid, tier, replay):
         res.notes["binding_selftest"] = st
         if st and not st["rejected"]:
             raise core.ToolError("binding self-test failed")
-    nparts = 1 if replay else (10 if tier == "thorough" else 5)
+    nparts = 1 if replay else (14 if tier == "thorough" else 5)
     parts = [sum(cases[i::nparts], []) for i in range(nparts)]
     parts = [p for p in parts if p]
     with concurrent.futures.ThreadPoolExecutor(max_workers=len(parts)) as ex:
@@ -233,7 +233,7 @@ def c12(pid, tier, replay):
             it = json.load(f)["instance"]
         items.append(it)
     else:
-        ndoc = 400 if thorough else 60
+        ndoc = 2500 if thorough else 60
         k = 40 if thorough else 14
         for i in range(ndoc):
             d = genyacc.gen_doc(rng)
@@ -267,7 +267,7 @@ def c12(pid, tier, replay):
                     add(entry, base[:i] + ch + base[i:])
         # generated %grmtools sections (nested arrays, namespaces, constructors, flags, strings
         # with escapes, numbers around u64::MAX, duplicates) and their mutants
-        for h in p_hdr.extra_items(rng, 300 if thorough else 50, 12 if thorough else 8):
+        for h in p_hdr.extra_items(rng, 3000 if thorough else 50, 12 if thorough else 8):
             add("header", h)
     job = os.path.join(res.wd, "job.json")
     trace = os.path.join(res.wd, "trace.ndjson")
